@@ -298,7 +298,9 @@ func parseParameter(p, v string) (interface{}, error) {
 
 func GetHTTPRequest(ctx *core.Context, r *http.Request) (map[string]interface{}, error) {
 
-	uri := DWIMURI(ctx, r.URL.String())
+	// The path, not the whole request target (which is an absolute
+	// URL when the request came through a proxy).
+	uri := DWIMURI(ctx, r.URL.Path)
 	core.Log(core.INFO, ctx, "service.GetHTTPRequest", "method", r.Method, "uri", uri)
 
 	m := make(map[string]interface{})
